@@ -189,7 +189,8 @@ def canon(roots, with_types=True):
             return ("keyedlist", me, tuple(rec(x, depth + 1) for x in o._list),
                     tuple(sorted((repr(kk), rec(v, depth + 1)) for kk, v in o._dict.items())))
         if k == "keyedset":
-            return ("keyedset", me, tuple(sorted(((repr(kk), rec(v, depth + 1)) for kk, v in o._dict.items()), key=lambda t: t[0])))
+            # a set has no order: visit (and number) the items in key order, not in storage order
+            return ("keyedset", me, tuple((repr(kk), rec(v, depth + 1)) for kk, v in sorted(o._dict.items(), key=lambda kv: repr(kv[0]))))
         if k in ("spec", "obj"):
             return (k, type(o).__name__ if with_types else "", me, tuple((a, rec(v, depth + 1)) for a, v in children(o, k)))
         if k == "set":
